@@ -38,6 +38,7 @@ var (
 	keys     []key
 	loadErr  error
 	unusable []string // what an unusable ipfix.elements did to the table
+	presented []string // the file reached through links loads differently
 )
 
 func envOr(k, d string) string {
@@ -100,6 +101,60 @@ func setup() {
 	}
 	for k, v := range ipfix.InfoModel {
 		loaded[k] = v
+	}
+	// path 2b: what a load takes from the file must not depend on how the file is presented: a plain copy, a
+	// symbolic link to it, the layout of a Kubernetes ConfigMap volume (ipfix.elements -> ..data/ipfix.elements,
+	// ..data -> a directory). Loaded into an EMPTY table so that what was loaded can be told from what was there.
+	fromEmpty := func(dir string) (map[ipfix.ElementKey]ipfix.InfoElementEntry, error) {
+		keep := ipfix.InfoModel
+		ipfix.InfoModel = map[ipfix.ElementKey]ipfix.InfoElementEntry{}
+		err := ipfix.LoadExtElements(dir)
+		got := ipfix.InfoModel
+		ipfix.InfoModel = keep
+		return got, err
+	}
+	var plain map[ipfix.ElementKey]ipfix.InfoElementEntry
+	for _, v := range []struct {
+		name string
+		make func(dir string) error
+	}{
+		{"a plain copy of the shipped file", func(dir string) error { return os.WriteFile(filepath.Join(dir, "ipfix.elements"), shipped, 0644) }},
+		{"a symbolic link to the file", func(dir string) error {
+			os.WriteFile(filepath.Join(dir, "the-real-file"), shipped, 0644)
+			return os.Symlink("the-real-file", filepath.Join(dir, "ipfix.elements"))
+		}},
+		{"a ConfigMap volume (link -> ..data/ipfix.elements, ..data -> directory)", func(dir string) error {
+			os.Mkdir(filepath.Join(dir, "..2026_09_28"), 0755)
+			os.WriteFile(filepath.Join(dir, "..2026_09_28", "ipfix.elements"), shipped, 0644)
+			if err := os.Symlink("..2026_09_28", filepath.Join(dir, "..data")); err != nil {
+				return err
+			}
+			return os.Symlink("..data/ipfix.elements", filepath.Join(dir, "ipfix.elements"))
+		}},
+	} {
+		dir, _ := os.MkdirTemp("", "c20p")
+		if v.make(dir) != nil {
+			os.RemoveAll(dir)
+			continue // no symbolic links here
+		}
+		got, err := fromEmpty(dir)
+		os.RemoveAll(dir)
+		if plain == nil {
+			plain = got
+			if len(got) == 0 {
+				unusable = append(unusable, fmt.Sprintf("%s loaded nothing into an empty table (error: %v)", v.name, err))
+			}
+			continue
+		}
+		diff := 0
+		for k, e := range plain {
+			if got[k] != e {
+				diff++
+			}
+		}
+		if diff > 0 || len(got) != len(plain) || err != nil {
+			presented = append(presented, fmt.Sprintf("%s (load error: %v): %d of the %d entries a plain copy gives are missing or different, %d entries loaded", v.name, err, diff, len(plain), len(got)))
+		}
 	}
 	src, err := os.ReadFile(filepath.Join(repo, "ipfix", "rfc5102_model.go"))
 	if err != nil {
@@ -181,6 +236,9 @@ func entriesSpace(tier string) mck.Space {
 		if idx == 0 {
 			for _, u := range unusable {
 				c.Violation("model:unusable-file-changes-table", "ipfix.elements present but unusable - "+u, nil)
+			}
+			for _, u := range presented {
+				c.Violation("model:file-behind-symlink", "ipfix.elements reached through "+u, nil)
 			}
 		}
 		b, inB := builtin[ek]
